@@ -12,7 +12,7 @@ SAT_B = {'satisfied_permits': ('permit', 'true'), 'false_permits': ('permit', 'f
 
 def setup(ctx, meth):
     P = ctx.prog('core')
-    f = P.find_one(r'partial_response\.rs:82[^>]*>::' + meth + '$', 'partial_response.rs')
+    f = P.method('authorizer/partial_response.rs', meth, nargs=1, arg0=r'&PartialResponse$')
     ctx.use(f)
     ex = ctx.new_exec('core')
     iteralg.install(ex)
